@@ -66,6 +66,10 @@ def run(replay=None):
             invalid_used = invalid_used or bad
             ms.append(m)
         files.append(ms)
+    # the same body several times with different annotation blocks
+    for p in range(1, 8):
+        files.append([{'p': p, 'ann': ['id', 'title']}, {'p': p, 'ann': ['description', 'id']}])
+        files.append([{'p': p, 'ann': ['id']}, {'p': p, 'ann': []}, {'p': p, 'ann': ['title']}])
     files.append([])
     rep.count('files', len(files))
     events, info = [], {}
